@@ -211,10 +211,10 @@ func genX(t *rapid.T) XScript {
 		case mode < 4 && !bytesSized: // every batch holds one item
 			b.Max, b.Tiny = 1, "one-item"
 			b.Min = rapid.IntRange(0, 1).Draw(t, "min")
-		case mode < 4: // a few bytes: every single item is larger than max_size
+		case mode < 5 && bytesSized: // a few bytes: every single item is larger than max_size
 			b.Max, b.Tiny = rapid.IntRange(1, 16).Draw(t, "max"), "all-oversize"
 			b.Min = rapid.IntRange(0, b.Max).Draw(t, "min")
-		case mode < 7 && bytesSized: // below the largest single item: some or all items are oversize
+		case mode < 8 && bytesSized: // below the largest single item: some or all items are oversize
 			if largest := largestItemBytes(s.Signal, s.Payloads); largest > 1 {
 				b.Max, b.Tiny = rapid.IntRange(1, largest-1).Draw(t, "max"), "below-largest-item"
 				b.Min = rapid.IntRange(0, b.Max).Draw(t, "min")
@@ -956,7 +956,11 @@ func runXInner(c *vt.C, s *XScript) (nontrivial bool, f *vt.Finding) {
 				}
 			}
 			if singles >= 2 {
-				c.Class("batch:request-exported-item-by-item/" + s.Sizer + "/" + s.Signal)
+				unit := "items"
+				if b == s.Batch {
+					unit = s.Sizer
+				}
+				c.Class("batch:request-exported-item-by-item/" + unit + "/" + s.Signal)
 				break
 			}
 		}
